@@ -36,10 +36,31 @@ type IDLEnum struct {
 	Order   []string
 }
 
+// IDLParam is one parameter of an interface function.
+type IDLParam struct {
+	Name string
+	Type string
+	Out  bool
+}
+
+// IDLFunc is one function of an interface.
+type IDLFunc struct {
+	Name   string
+	Ret    string // "void" or a type
+	Params []IDLParam
+}
+
+type IDLInterface struct {
+	Module string
+	Name   string
+	Funcs  []*IDLFunc
+}
+
 type IDLFile struct {
-	Structs []*IDLStruct
-	Enums   []*IDLEnum
-	Consts  map[string]string
+	Structs    []*IDLStruct
+	Enums      []*IDLEnum
+	Consts     map[string]string
+	Interfaces []*IDLInterface
 }
 
 type lexer struct {
@@ -231,20 +252,37 @@ func ParseTars(src string) (*IDLFile, error) {
 			l.next() // }
 			f.Structs = append(f.Structs, s)
 		case "interface":
-			// skip the body
-			depth := 0
-			for l.pos < len(l.toks) {
-				t := l.next()
-				if t == "{" {
-					depth++
-				}
-				if t == "}" {
-					depth--
-					if depth == 0 {
-						break
+			it := &IDLInterface{Module: module, Name: l.next()}
+			l.next() // {
+			for l.peek() != "}" && l.peek() != "" {
+				fn := &IDLFunc{}
+				fn.Ret = l.parseType()
+				fn.Name = l.next()
+				l.next() // (
+				for l.peek() != ")" && l.peek() != "" {
+					var p IDLParam
+					if l.peek() == "out" {
+						p.Out = true
+						l.next()
+					}
+					if l.peek() == "routekey" {
+						l.next()
+					}
+					p.Type = l.parseType()
+					p.Name = l.next()
+					fn.Params = append(fn.Params, p)
+					if l.peek() == "," {
+						l.next()
 					}
 				}
+				l.next() // )
+				if l.peek() == ";" {
+					l.next()
+				}
+				it.Funcs = append(it.Funcs, fn)
 			}
+			l.next() // }
+			f.Interfaces = append(f.Interfaces, it)
 		}
 	}
 	return f, nil
